@@ -124,7 +124,11 @@ impl Iterator for SequenceNumberRange {
       None
     } else {
       let b = self.begin;
-      self.begin = b + SequenceNumber::new(1);
+      // The range may end at the numeric maximum: do not step past it.
+      match b.0.checked_add(1) {
+        Some(n) => self.begin = SequenceNumber(n),
+        None => self.end = SequenceNumber(i64::MIN), // exhausted
+      }
       Some(b)
     }
   }
@@ -361,7 +365,7 @@ where
   fn insert(&mut self, sn: N) {
     if sn < self.bitmap_base
       || self.num_bits == 0
-      || sn >= self.bitmap_base + N::from(self.num_bits as i64)
+      || i64::from(sn - self.bitmap_base) >= self.num_bits as i64
     {
       error!("out of bounds .insert({:?}) to {:?}", sn, self);
     } else {
